@@ -533,6 +533,9 @@ impl Session {
 }
 
 struct GenState {
+    /// profile "local": keys are drawn around a slowly moving cursor, so that memtables (and the
+    /// level-0 files they become) cover narrow, staircase-like overlapping key ranges
+    cursor: i64,
     next_vid: i64,
     nsnaps: usize,
     niters: usize,
@@ -558,8 +561,17 @@ fn gen_value(rng: &mut StdRng, g: &mut GenState, cfg: &HistCfg, memtable: usize)
     }
 }
 
-fn gen_key(rng: &mut StdRng, cfg: &HistCfg) -> i64 {
+fn gen_key(rng: &mut StdRng, g: &mut GenState, cfg: &HistCfg) -> i64 {
     let n = cfg.nkeys as i64;
+    if cfg.profile == "local" && rng.gen_bool(0.9) {
+        if rng.gen_bool(0.25) {
+            g.cursor += 1;
+            if g.cursor > n {
+                g.cursor = 1;
+            }
+        }
+        return (g.cursor + rng.gen_range(-1..=1)).clamp(1, n);
+    }
     if cfg.profile == "hot" && rng.gen_bool(0.7) {
         rng.gen_range(1..=2.min(n))
     } else {
@@ -578,21 +590,24 @@ fn gen_op(rng: &mut StdRng, g: &mut GenState, cfg: &HistCfg, cur: &OptSet) -> Op
     if cfg.bias_reopen && rng.gen_bool(0.08) {
         r = 92;
     }
+    if cfg.profile == "local" && rng.gen_bool(0.12) {
+        r = 89;
+    }
     let fill = cfg.profile == "fill";
     if r < 46 || (fill && r < 70) {
         Op::Put {
-            k: gen_key(rng, cfg),
+            k: gen_key(rng, g, cfg),
             v: gen_value(rng, g, cfg, cur.memtable),
         }
     } else if r < 58 {
         Op::Del {
-            k: gen_key(rng, cfg),
+            k: gen_key(rng, g, cfg),
         }
     } else if r < 66 {
         let n = rng.gen_range(2..=5);
         let ops = (0..n)
             .map(|_| {
-                let k = gen_key(rng, cfg);
+                let k = gen_key(rng, g, cfg);
                 if rng.gen_bool(0.75) {
                     (k, Some(gen_value(rng, g, cfg, cur.memtable)))
                 } else {
@@ -764,6 +779,7 @@ pub fn run_hist(
     };
     let mut ops_done: Vec<Op> = vec![];
     let mut g = GenState {
+        cursor: 1,
         next_vid: 1,
         nsnaps: 0,
         niters: 0,
@@ -794,7 +810,7 @@ pub fn run_hist(
                         Op::Reopen { opts: o }
                     } else if cfg.early_reopen && i < early_at {
                         Op::Put {
-                            k: gen_key(&mut rng, cfg),
+                            k: gen_key(&mut rng, &mut g, cfg),
                             v: ValSpec {
                                 vid: {
                                     g.next_vid += 1;
